@@ -58,6 +58,8 @@ package cty
 //@   ensures[C19] wrongshape: (=> (or (= val $G<cty.NilVal>) (is_null val) (not (or (and (is_number_ty kt) (or (is_list_ty t) (is_tuple_ty t))) (and (is_string_ty kt) (is_map_ty t))))) (not (= result.1 nil.Any)))
 //@   ensures[C19] wf: (=> (= result.1 nil.Any) (wf_deep result.0))
 //@   ensures[C19] errnil: (=> (not (= result.1 nil.Any)) (= result.0 $G<cty.NilVal>))
+// the member, known or not, carries the marks of the collection (as Index's result does)
+//@   ensures[C19,C04] marks_kept: (=> (= result.1 nil.Any) (forall ((k Any)) (! (=> (select (marks_of val) k) (select (marks_of result.0) k)) :pattern ((select (marks_of result.0) k)))))
 //
 // Interface contract of PathStep.Apply: what both implementers above guarantee.
 //@ func (cty.PathStep).Apply
